@@ -5,11 +5,10 @@
    [U] C04_enumeration       the identifiables map lists each identifiable element once, under its path, nothing else
    [U] C04_unique_paths      no two identifiable elements of one model have the same path
    [U] C04_path_concat       Element::path() = concatenation of "/"+item name over identifiable ancestors-or-self
-   Pending04 (constructor list): OpCopy OpCopyAt OpMove OpMoveAt OpSetItemName OpRemoveFile
-   OpRemoveFromFile, and OpSetCData on a SHORT-NAME element that already has text. *)
+   Pending04 (constructor list): OpCopy OpCopyAt OpMove OpMoveAt OpSetItemName OpRemoveFile OpRemoveFromFile. *)
 From AV Require Import Base.Bytes Base.Outcome Hash.HashModel Tree.Heap Tree.Ops Tree.Script Tree.IndexProofsW
   Tree.Index Tree.IndexProofsBase Tree.IndexProofsAssoc Tree.IndexProofsFrame Tree.IndexProofsAttach
-  Tree.IndexProofsCreate Tree.IndexProofsNamed Tree.IndexProofsEdit Tree.IndexProofsModel Tree.IndexProofsRemoveOp.
+  Tree.IndexProofsCreate Tree.IndexProofsNamed Tree.IndexProofsEdit Tree.IndexProofsModel Tree.IndexProofsRemoveOp Tree.IndexProofsRenameOps.
 Open Scope string_scope.
 Open Scope list_scope.
 Open Scope N_scope.
@@ -46,7 +45,7 @@ Lemma Inv04_sv w w' : SV w w' -> Inv04 w -> Inv04 w'.
 Proof. intros H. apply Inv04_iv. apply SV_IV. exact H. Qed.
 
 Theorem C04_inv_partial w o r w' :
-  TreeFacts w -> Inv04 w -> Known04 T LATEST w o = false -> Pending04 T w o = false ->
+  TreeFacts w -> Inv04 w -> Known04 T LATEST w o = false -> Pending04 w o = false ->
   run o w = Val (r, w') -> Inv04 w'.
 Proof.
   intros HF HI HK HP H. destruct o; cbn [run_op] in H; try discriminate HP.
@@ -56,8 +55,7 @@ Proof.
   - apply welem_inv in H as (r0 & H). eapply C04_create_named_at; eauto.
   - apply wunit_inv in H as (r0 & H). eapply C04_remove; eauto.
   - apply wunit_inv in H as (r0 & H). eapply C04_remove_kind; eauto.
-  - apply wunit_inv in H as (r0 & H). eapply C04_set_cdata_plain; eauto.
-    intros n Hn. cbn [Pending04] in HP. rewrite Hn in HP. exact HP.
+  - apply wunit_inv in H as (r0 & H). eapply C04_set_cdata; eauto.
   - apply wunit_inv in H as (r0 & H). eapply C04_remove_cdata; eauto.
   - apply wunit_inv in H as (r0 & H). eapply C04_insert_citem; eauto.
   - apply wunit_inv in H as (r0 & H). eapply C04_remove_citem; eauto.
@@ -84,7 +82,7 @@ Fixpoint steps_ok (l : list op) (w : world) : Prop :=
   match l with
   | [] => True
   | o :: rest =>
-    TreeFacts w /\ Known04 T LATEST w o = false /\ Pending04 T w o = false /\
+    TreeFacts w /\ Known04 T LATEST w o = false /\ Pending04 w o = false /\
     match run o w with Val (_, w') => steps_ok rest w' | _ => True end
   end.
 
